@@ -19,7 +19,7 @@ namespace TAO_PEGTL_NAMESPACE::internal
    struct strict
    {
       using rule_t = strict;
-      using subs_t = type_list< Rule, Rules... >;
+      using subs_t = type_list< Rule, seq< Rules... > >;
 
       template< apply_mode A,
                 rewind_mode M,
